@@ -81,3 +81,27 @@ def run(ctx):
                 ctx.instance("C29.3", "restore: copy#%d unreachable from status %s" % (c.ordinal, n))
                 ctx.oblige(c.bb not in reach, "C29.3", "restore_from_backup:copies-on-%s" % n,
                            "restore copies files back from a backup whose manifest is %s" % n, c.loc())
+
+    # ---- clause 4: the copies are whole-file copies ------------------------------------------------
+    # C29.2's order argument (page file first, then the log, so the log copy contains every transaction whose pages may be in the
+    # page copy) only holds if the log copy is the *whole* log as it is at copy time.  A copy bounded by a length captured earlier
+    # (Read::take(n), a counted read loop, set_len on the destination) re-introduces the inconsistency: post-commit pages next to a
+    # pre-commit log prefix, or a rewritten log cut in the middle of its only transaction.
+    ctx.rule("C29.4", "copy_ndb_file / copy_wal_file copy the whole source file: io::copy / fs::copy straight from the opened file, no length-limited reader, no truncation of the destination")
+    LIMITERS = ("::take", "::set_len", "::read_exact", "::by_ref")
+    for fn in (BM + "::copy_ndb_file", BM + "::copy_wal_file"):
+        cb = ctx.body(fn)
+        copies4 = [c for c in cb.calls() if c.name in ("std::io::copy", "std::fs::copy", M.FS_COPY) or c.name.endswith("io::copy::copy")]
+        lim = [c for c in cb.calls() if c.name.endswith(LIMITERS) and ("std::io" in c.name or "std::fs" in c.name or "core::" not in c.name)]
+        bounded = []
+        for c in copies4:
+            for a in c.args[:1]:
+                from ..facts import op_local as _ol
+                l = _ol(a)
+                ty = cb.local_ty(l) if l is not None else ""
+                if "Take<" in ty or "Chain<" in ty:
+                    bounded.append(ty)
+        ctx.instance("C29.4", "%s: whole-file copy calls=%d, limiters=%s, bounded readers=%s" % (fn.split("::")[-1], len(copies4), [c.name.split("::")[-1] for c in lim], bounded))
+        ctx.oblige(bool(copies4) and not lim and not bounded, "C29.4", "%s:bounded-copy" % fn.split("::")[-1],
+                   "the backup copies only part of the file (%s): the log copy no longer contains every transaction whose pages are in the page copy, "
+                   "or cuts a rewritten log inside its only transaction" % ([c.name.split("::")[-1] for c in lim] + bounded), cb.file)
